@@ -182,13 +182,17 @@ func VerifNormDump(e Expression) string { return verifNormDump(e) }
 // node prints (Expression.String, the printer refactoring and migrations
 // use) as exactly one TEXT token which the visitor reads back as s, and
 // printing the re-read node gives the same text again.
-// cover: plain, has-quote, has-backslash, has-control
+// cover: plain, has-quote, has-backslash, has-control, long
 func VerifC11_LiteralRoundTrip() {
 	n := 3
 	if zzverif.Thorough() {
 		n = 4
 	}
 	s := verifLiteralContent("s", n, !zzverif.Thorough())
+	if zzverif.Choice("long-literal", 2) == 1 {
+		s = strings.Repeat("x", 126) + s
+		zzverif.Cover("long")
+	}
 	switch {
 	case strings.IndexByte(s, '"') >= 0:
 		zzverif.Cover("has-quote")
